@@ -501,6 +501,314 @@ def translate_dc(fn):
         % (dts[0][1], tr, pidot, cx.ATOMS[want["x"]][1], cx.ATOMS[want["z"]][1], qn, b1, b2, contl))
 
 
+# ------------------------------------------------------------------ sampling index logic (eval_at_control & co.)
+class SmpCtx:
+    """Python index expressions of SamplingMethod -> Gallina over the record mlists (Mech/Sampling.v).
+    Types: 'z' Python int (Z), 'n' non-negative int (nat), 'b' bool, 'f' scalar, 'c' column (list F)"""
+    COLS = {"self.X": "(L_X L)", "self.U": "(L_U L)", "self.Z": "(L_Z L)", "self.Q": "(L_Q L)"}
+    GETTERS = {"get_p_control_at": "(L_PC L)", "get_v_control_at": "(L_VC L)",
+               "get_p_control_plus_at": "(L_PP L)", "get_v_control_plus_at": "(L_VP L)"}
+    LENS = {"len(self.U)": "(Z.of_nat (length (L_U L)))", "len(self.integrator_grid)": "(Z.of_nat (length (L_ig L)))"}
+
+    def __init__(self, zvars=("k",), nvars=(), locals_=None, lists=None):
+        self.zvars, self.nvars = set(zvars), set(nvars)
+        self.locals = dict(locals_ or {})
+        # names of the record fields as they appear in the standalone functions get_DT_*
+        self.lists = lists or {"cg": "(L_cg L)", "ig": "(L_ig L)", "N": "(L_N L)", "M": "(L_M L)"}
+
+    def z(self, e):
+        src = ast.unparse(e)
+        if src in self.LENS:
+            return self.LENS[src]
+        if isinstance(e, ast.Name) and e.id in self.zvars:
+            return e.id
+        if isinstance(e, ast.Name) and e.id in self.nvars:
+            return "(Z.of_nat %s)" % e.id
+        if isinstance(e, ast.Constant) and isinstance(e.value, int) and not isinstance(e.value, bool):
+            return "%d" % e.value if e.value >= 0 else "(%d)" % e.value
+        if isinstance(e, ast.UnaryOp) and isinstance(e.op, ast.USub):
+            return "(- %s)" % self.z(e.operand)
+        if src == "self.N":
+            return "(Z.of_nat %s)" % self.lists["N"]
+        if isinstance(e, ast.BinOp) and isinstance(e.op, (ast.Add, ast.Sub)):
+            return "(%s %s %s)" % (self.z(e.left), "+" if isinstance(e.op, ast.Add) else "-", self.z(e.right))
+        if isinstance(e, ast.IfExp):
+            return "(if %s then %s else %s)" % (self.b(e.test), self.z(e.body), self.z(e.orelse))
+        _fail(e, "integer (Z) expression")
+
+    def n(self, e):
+        src = ast.unparse(e)
+        if isinstance(e, ast.Name) and e.id in self.nvars:
+            return e.id
+        if isinstance(e, ast.Constant) and isinstance(e.value, int) and e.value >= 0 and not isinstance(e.value, bool):
+            return "%d" % e.value
+        if src == "self.M":
+            return self.lists["M"]
+        if src.endswith(".numel()") and src[:-8] in self.locals and self.locals[src[:-8]][0] == "row":
+            return "(length %s)" % self.locals[src[:-8]][1]
+        if isinstance(e, ast.BinOp) and isinstance(e.op, (ast.Add, ast.Sub, ast.Mult)):
+            return "(%s %s %s)" % (self.n(e.left), {ast.Add: "+", ast.Sub: "-", ast.Mult: "*"}[type(e.op)], self.n(e.right))
+        if isinstance(e, ast.IfExp):
+            return "(if %s then %s else %s)" % (self.b(e.test), self.n(e.body), self.n(e.orelse))
+        _fail(e, "index (nat) expression")
+
+    def b(self, e):
+        if isinstance(e, ast.BoolOp):
+            op = " || " if isinstance(e.op, ast.Or) else " && "
+            return "(" + op.join(self.b(v) for v in e.values) + ")"
+        if isinstance(e, ast.Compare) and len(e.ops) == 1:
+            l, r, op = e.left, e.comparators[0], e.ops[0]
+            # nat comparison when both sides are nat-typed (i < numel - 1), Z otherwise
+            try:
+                ln, rn = self.n(l), self.n(r)
+                if isinstance(op, ast.Lt):
+                    return "(Nat.ltb %s %s)" % (ln, rn)
+            except Untranslatable:
+                pass
+            lz, rz = self.z(l), self.z(r)
+            if isinstance(op, ast.Eq):
+                return "(%s =? %s)%%Z" % (lz, rz)
+            if isinstance(op, ast.NotEq):
+                return "(negb (%s =? %s)%%Z)" % (lz, rz)
+            if isinstance(op, ast.Lt):
+                return "(%s <? %s)%%Z" % (lz, rz)
+            if isinstance(op, ast.Gt):
+                return "(%s <? %s)%%Z" % (rz, lz)
+        _fail(e, "condition")
+
+    def f(self, e):
+        """scalar F"""
+        src = ast.unparse(e)
+        if src == "self.t0":
+            return "(L_t0 L)"
+        if src == "self.T":
+            return "(L_T L)"
+        if isinstance(e, ast.Name) and e.id in self.locals and self.locals[e.id][0] == "f":
+            return self.locals[e.id][1]
+        if isinstance(e, ast.BinOp) and isinstance(e.op, ast.Sub):
+            return "(%s -! %s)" % (self.f(e.left), self.f(e.right))
+        if isinstance(e, ast.Subscript):
+            base = ast.unparse(e.value)
+            if base == "self.control_grid":
+                return "(pygetd o0 %s %s)" % (self.lists["cg"], self.z(e.slice))
+            if base in self.locals and self.locals[base][0] == "row":          # an integrator-grid row, index >= 0
+                return "(nth %s %s o0)" % (self._succ(self.n(e.slice)), self.locals[base][1])
+            if isinstance(e.value, ast.Subscript) and ast.unparse(e.value.value) == "self.integrator_grid":
+                return "(nth %s (pygetd [] %s %s) o0)" % (self._succ(self.n(e.slice)), self.lists["ig"], self.z(e.value.slice))
+            if src == "self.tr[k][i][j]" and {"k", "i", "j"} <= self.nvars:
+                return "(nth j (nth i (nth k (L_tr L) []) []) o0)"
+        if isinstance(e, ast.Call) and ast.unparse(e.func) == "self.get_DT_control_at" and len(e.args) == 1:
+            return "(gen_get_DT_control_at %s %s %s)" % (self.lists["cg"], self.lists["N"], self.z(e.args[0]))
+        if isinstance(e, ast.Call) and ast.unparse(e.func) == "self.get_DT_at" and len(e.args) == 2:
+            return "(gen_get_DT_at %s %s %s)" % (self.lists["ig"], self.z(e.args[0]), self.n(e.args[1]))
+        if isinstance(e, ast.IfExp):
+            return "(if %s then %s else %s)" % (self.b(e.test), self.f(e.body), self.f(e.orelse))
+        _fail(e, "scalar expression")
+
+    @staticmethod
+    def _succ(t):
+        # (i + 1) -> S i, to match the model's spelling
+        if t.startswith("(") and t.endswith(" + 1)"):
+            return "(S %s)" % t[1:-5]
+        return t
+
+    def c(self, e):
+        """column (list F)"""
+        src = ast.unparse(e)
+        if src == "self.V":
+            return "(L_V L)"
+        if src == "veccat(*self.P)":
+            return "(L_P L)"
+        if isinstance(e, ast.Name) and e.id in self.locals and self.locals[e.id][0] == "c":
+            return self.locals[e.id][1]
+        if isinstance(e, ast.Subscript) and ast.unparse(e.value) in self.COLS:
+            return "(colget %s %s)" % (self.COLS[ast.unparse(e.value)], self.z(e.slice))
+        FLAT = {"self.xk": "(L_xk L)", "self.xqk": "(L_xqk L)", "self.zk": "(L_zk L)"}
+        if isinstance(e, ast.Subscript) and ast.unparse(e.value) in FLAT:
+            return "(nth %s %s [])" % (self.n(e.slice), FLAT[ast.unparse(e.value)])
+        if src in ("self.xr[k][i][:, j]", "self.zr[k][i][:, j]") and {"k", "i", "j"} <= self.nvars:
+            return "(nth j (nth i (nth k (L_%s L) []) []) [])" % src[5:7]
+        if isinstance(e, ast.Call) and isinstance(e.func, ast.Attribute) and e.func.attr in self.GETTERS \
+                and ast.unparse(e.func.value) == "self" and len(e.args) == 2 and ast.unparse(e.args[0]) == "stage":
+            return "(colget %s %s)" % (self.GETTERS[e.func.attr], self.z(e.args[1]))
+        if isinstance(e, ast.IfExp):
+            # `A[k] if A else nan`: an empty list stands for "no such symbols"; colget of [] is the empty column
+            if ast.unparse(e.test) in self.COLS and ast.unparse(e.orelse) == "nan" and isinstance(e.body, ast.Subscript) \
+                    and ast.unparse(e.body.value) == ast.unparse(e.test):
+                return self.c(e.body)
+            # the algebraic lists zk / zr are filled together: `... if self.zk else nan`
+            if ast.unparse(e.test) == "self.zk" and ast.unparse(e.orelse) == "nan":
+                return self.c(e.body)
+            return "(if %s then %s else %s)" % (self.b(e.test), self.c(e.body), self.c(e.orelse))
+        _fail(e, "column expression")
+
+
+KW_FIELDS = [("x", "e_x", "c"), ("u", "e_u", "c"), ("z", "e_z", "c"), ("xq", "e_q", "c"), ("p", "e_p", "c"),
+             ("p_control", "e_pc", "c"), ("p_control_plus", "e_pp", "c"), ("v", "e_v", "c"), ("v_control", "e_vc", "c"),
+             ("v_control_plus", "e_vp", "c"), ("t", "e_t", "f"), ("T", "e_T", "f"), ("t0", "e_t0", "f"), ("DT", "e_DT", "f"),
+             ("DT_control", "e_DTc", "f")]
+XQ_BLOCK = "if self.Q:\n    xq = self.Q[k]\nelif k == -1:\n    xq = self.q\nelse:\n    xq = nan"
+GETTER_BODY = "return veccat(*[%s[k] for %s in self.%s])"
+
+
+def _env_from_call(cx, call, extra_ok, no_xq=False):
+    kw = {k.arg: k.value for k in call.keywords}
+    fields = []
+    for name, field, ty in KW_FIELDS:
+        if name not in kw:
+            if name == "xq" and no_xq:
+                fields.append("e_q := []")
+                continue
+            raise Untranslatable("_expr_apply call lacks keyword " + name)
+        fields.append("%s := %s" % (field, cx.c(kw[name]) if ty == "c" else cx.f(kw[name])))
+    for name in kw:
+        if name not in [n for n, _, _ in KW_FIELDS] and name not in extra_ok:
+            raise Untranslatable("_expr_apply call has an unknown keyword " + name)
+    return "{| " + ";\n     ".join(fields) + " |}"
+
+
+def _assign_locals(cx, body, stop_at_return=True):
+    """simple local assignments `name = expr` (typed by trying column, then scalar) and the xq block"""
+    for st in body:
+        if isinstance(st, ast.Return):
+            return st
+        src = ast.unparse(st)
+        if src == XQ_BLOCK:
+            cx.locals["xq"] = ("c", "(colget (L_Q L) k)")       # assumption recorded in DESIGN: the Q list is filled
+            continue
+        if isinstance(st, ast.If) and len(st.body) == 1 and len(st.orelse) == 1 and isinstance(st.body[0], ast.Assign) \
+                and isinstance(st.orelse[0], ast.Assign) and ast.unparse(st.body[0].targets[0]) == ast.unparse(st.orelse[0].targets[0]):
+            tgt = ast.unparse(st.body[0].targets[0])
+            cx.locals[tgt] = ("f", "(if %s then %s else %s)" % (cx.b(st.test), cx.f(st.body[0].value), cx.f(st.orelse[0].value)))
+            continue
+        if isinstance(st, ast.Assign) and len(st.targets) == 1 and isinstance(st.targets[0], ast.Name):
+            tgt = st.targets[0].id
+            try:
+                cx.locals[tgt] = ("c", cx.c(st.value))
+            except Untranslatable:
+                try:
+                    cx.locals[tgt] = ("f", cx.f(st.value))
+                except Untranslatable:
+                    cx.locals[tgt] = ("?", None)     # not used by the environment (e.g. v_states): checked at use
+            continue
+        _fail(st, "statement")
+    return None
+
+
+def translate_sampling(tree):
+    cls = "SamplingMethod"
+    out = []
+    # the per-interval getters must be the plain column reads the model takes them for
+    for g, lst in (("get_p_control_at", "P_control"), ("get_v_control_at", "V_control"),
+                   ("get_p_control_plus_at", "P_control_plus"), ("get_v_control_plus_at", "V_control_plus")):
+        fn = _find_method(tree, cls, g)
+        body = [ast.unparse(st) for st in fn.body if not (isinstance(st, ast.Expr) and isinstance(st.value, ast.Constant))]
+        v = "p" if g.startswith("get_p") else "v"
+        if body != [GETTER_BODY % (v, v, lst)]:
+            raise Untranslatable("%s: body %r" % (g, body))
+    # get_DT_control_at(k)
+    fn = _find_method(tree, cls, "get_DT_control_at")
+    cx = SmpCtx(lists={"cg": "cg", "ig": "ig", "N": "N", "M": "M"})
+    st = fn.body
+    if not (len(st) == 2 and isinstance(st[0], ast.If) and len(st[0].body) == 1 and isinstance(st[0].body[0], ast.Return)
+            and not st[0].orelse and isinstance(st[1], ast.Return)):
+        _fail(fn, "get_DT_control_at")
+    out.append("Definition gen_get_DT_control_at (cg : list F) (N : nat) (k : Z) : F :=\n  if %s then %s else %s.\n"
+               % (cx.b(st[0].test), cx.f(st[0].body[0].value), cx.f(st[1].value)))
+    # get_DT_at(k, i)
+    fn = _find_method(tree, cls, "get_DT_at")
+    cx = SmpCtx(zvars=("k",), nvars=("i",), lists={"cg": "cg", "ig": "ig", "N": "N", "M": "M"})
+    st = fn.body
+    if not (len(st) == 2 and ast.unparse(st[0]) == "integrator_grid = self.integrator_grid[k]" and isinstance(st[1], ast.If)
+            and len(st[1].body) == 1 and len(st[1].orelse) == 1):
+        _fail(fn, "get_DT_at")
+    cx.locals["integrator_grid"] = ("row", "igk")
+    out.append("Definition gen_get_DT_at (ig : list (list F)) (k : Z) (i : nat) : F :=\n  let igk := pygetd [] ig k in\n"
+               "  if %s then %s else %s.\n" % (cx.b(st[1].test), cx.f(st[1].body[0].value), cx.f(st[1].orelse[0].value)))
+    # eval_at_control: the offset loop and the outer environment
+    fn = _find_method(tree, cls, "eval_at_control")
+    loops = [s_ for s_ in fn.body if isinstance(s_, ast.For) and ast.unparse(s_.iter) == "offsets.keys()"]
+    if len(loops) != 1:
+        _fail(fn, "offset loop")
+    lp = loops[0]
+    cx = SmpCtx(zvars=("k", "offset", "k_node"))
+    conds, knode, target = [], None, None
+    for s_ in lp.body:
+        if isinstance(s_, ast.If) and len(s_.body) == 1 and ast.unparse(s_.body[0]) == "raise IndexError()" and not s_.orelse:
+            conds.append(cx.b(s_.test) if knode is None else cx.b(s_.test).replace("k_node", "(%s)" % knode))
+        elif isinstance(s_, ast.Assign) and ast.unparse(s_.targets[0]) == "k_node":
+            knode = cx.z(s_.value)
+        elif ast.unparse(s_).startswith("subst_from.append("):
+            if ast.unparse(s_) != "subst_from.append(vvcat(symbols[offset]))":
+                _fail(s_, "offset loop")
+        elif ast.unparse(s_).startswith("subst_to.append("):
+            c = s_.value.args[0]
+            if not (_is_call(c, "self._eval_at_control") and ast.unparse(c.args[0]) == "stage"
+                    and ast.unparse(c.args[1]) == "vvcat(offsets[offset])"):
+                _fail(s_, "offset operand evaluation")
+            target = cx.z(c.args[2]).replace("k_node", "(%s)" % knode)
+        else:
+            _fail(s_, "offset loop statement")
+    if knode is None or target is None or len(conds) != 2:
+        _fail(lp, "offset loop shape")
+    out.append("(* eval_at_control: an offset operand is dropped (IndexError) when one of the guards holds, else it is\n"
+               "   evaluated by _eval_at_control at the index gen_offset_target *)\n"
+               "Definition gen_offset_dropped (L : mlists F) (k offset : Z) : bool := %s || %s.\n"
+               "Definition gen_offset_target (L : mlists F) (k offset : Z) : Z := %s.\n" % (conds[0], conds[1], target))
+    cx = SmpCtx()
+    pre = [s_ for s_ in fn.body if not isinstance(s_, (ast.Try, ast.For)) and not ast.unparse(s_).startswith(("offsets =", "symbols =", "subst_from =", "subst_to ="))]
+    # locals DT_control, DT, xq then `expr = stage._expr_apply(...)`
+    call = None
+    body = []
+    for s_ in pre:
+        if isinstance(s_, ast.Assign) and ast.unparse(s_.targets[0]) == "expr" and _is_call(s_.value, "stage._expr_apply"):
+            call = s_.value
+            break
+        body.append(s_)
+    if call is None:
+        _fail(fn, "eval_at_control: _expr_apply call")
+    # the nested `if self.Q: ... else: if k==-1 ...` is printed by ast.unparse as if/elif/else
+    _assign_locals(cx, body)
+    out.append("Definition gen_env_control (L : mlists F) (k : Z) : env F :=\n  %s.\n" % _env_from_call(cx, call, ("sub", "signals", "v_states")))
+    # _eval_at_control
+    fn = _find_method(tree, cls, "_eval_at_control")
+    cx = SmpCtx()
+    ret = _assign_locals(cx, fn.body)
+    if ret is None or not _is_call(ret.value, "stage._expr_apply"):
+        _fail(fn, "_eval_at_control: return")
+    out.append("Definition gen_env_inner (L : mlists F) (k : Z) : env F :=\n  %s.\n" % _env_from_call(cx, ret.value, ("v_states",)))
+    # eval_at_integrator(k, i), eval_at_integrator_root(k, i, j): indices of integrator steps / roots (never negative)
+    for name, nv, coqn, noxq in (("eval_at_integrator", ("k", "i"), "gen_env_integrator (L : mlists F) (k i : nat)", False),
+                                 ("eval_at_integrator_root", ("k", "i", "j"), "gen_env_root (L : mlists F) (k i j : nat)", True)):
+        fn = _find_method(tree, cls, name)
+        cx = SmpCtx(zvars=(), nvars=nv)
+        ret = _assign_locals(cx, fn.body)
+        if ret is None or not _is_call(ret.value, "stage.master._method.eval_top") or len(ret.value.args) != 2 \
+                or not _is_call(ret.value.args[1], "stage._expr_apply"):
+            _fail(fn, name + ": return")
+        out.append("Definition %s : env F :=\n  %s.\n" % (coqn, _env_from_call(cx, ret.value.args[1], ("v_states",), no_xq=noxq)))
+    return "\n".join(out)
+
+
+HEADER_SMP = """(* GENERATED on every run by harness/translate.py from %s (sha256 %s).  Do not edit. *)
+From Coq Require Import ZArith QArith List Bool.
+From RV Require Import Base.Num Base.PyList Base.Vec Expr Mech.Grid Mech.Sampling.
+Import ListNotations.
+
+Section GenSmp.
+Context {F : Type} {OF : Ops F}.
+
+"""
+
+
+def generate_smp(repo=None):
+    repo = repo or REPO
+    path = os.path.join(repo, "rockit", "sampling_method.py")
+    src = open(path).read()
+    body = translate_sampling(ast.parse(src))
+    return HEADER_SMP % ("rockit/sampling_method.py", hashlib.sha256(src.encode()).hexdigest()[:16]) + body + "\nEnd GenSmp.\n"
+
+
 HEADER = """(* GENERATED on every run by harness/translate.py from %s (sha256 %s).
    Do not edit: the file is rewritten from the working tree before Tie/IntgTie.v is checked. *)
 From Coq Require Import ZArith QArith List.
@@ -560,6 +868,7 @@ TIES = {
     # name: (generator, generated file, tie file)
     "Intg": (generate, "IntgGen.v", "IntgTie.v"),
     "Dc": (generate_dc, "DcGen.v", "DcTie.v"),
+    "Smp": (generate_smp, "SmpGen.v", "SmpTie.v"),
 }
 
 
